@@ -1,0 +1,26 @@
+//go:build verif
+
+package cardinality
+
+// Contracts for the verification harness under /verif (comment-only file).
+//
+// C13: every key field is one label of the metric and Do hands one value per key
+// field to WithLabelValues: the number of (de-duplicated) label names must equal the
+// number of key fields, or the first event panics on the processor goroutine.
+// Start refuses such a configuration.
+
+//@ func (*Plugin).Start
+//@   option allow-exit yes
+//@   ghost nlab int = 0
+//@   requires typeis(config, "*github.com/ozontech/file.d/plugin/action/cardinality.Config") && params != nil
+//@   assert at "p.registerMetrics(params.MetricCtl, p.config.MetricPrefix)" nlab == len(p.keys.fields)
+//@   callee keyMetricLabels(f) (r)
+//@     pure
+//@     set nlab := len(r)
+//@   callee parseFields(f) (r)
+//@     pure
+//@     ensures r != nil
+//@   callee NewCache(t) (c)
+//@     pure
+//@   callee Desugar() (l)
+//@     pure
